@@ -2,7 +2,7 @@
    exported input, compares with the implementation's observed outputs (tags 1..9), and evaluates the
    property statements themselves on the implementation's outputs (oracle tags >= 11). *)
 From Coq Require Import List Bool Arith ZArith NArith Lia.
-From PV Require Import Base.PyData C18.Model C18.Spec C18.MflModel C18.MflSpec C18.MflCheck.
+From PV Require Import Base.PyData C18.Model C18.Spec C18.MflModel C18.MflSpec C18.MflCheck C18.MflParser.
 Import ListNotations.
 Local Open Scope nat_scope.
 
@@ -22,6 +22,10 @@ Inductive case :=
 | CExh (keys : list key) (out : list (nat * list key)) (unordered : bool)
     (* exhaustive: run number, combo; does a candidate with several features receive its functions as an unordered set? *)
 | CTeq (t1 t2 : pstmt) (is_bool truth : bool)                    (* Transits.__eq__: is the result a bool, its truth value *)
+| CIov (names : list str) (proper : bool) (i : nat) (out : list (nat * list str))
+    (* iovsearch.wf_etas_removal(_, _, non_empty_(proper_)subsets(names), i): candidate number, etas removed *)
+| CParse (text : list N) (parsed : option (list MflParser.stmt))
+    (* an MFL text and what lark + MFLInterpreter made of it (None = the real parser refuses it) *)
 | CLnt (a b : mf) (o : obs (list key))                          (* a.least_number_of_transformations(b, tool='modelsearch').keys() *)
 | CAllowed (keys : list key) (qs : list (key * list key * bool)) (* _is_allowed(cur, ., prev, funcs) *)
 | CStep (keys : list key) (out : list (nat * list key))         (* exhaustive_stepwise: run number, feature path from the root, in model_tasks order *)
@@ -230,6 +234,15 @@ Definition verdict (c : case) : list nat :=
   | CExh keys out u => check_exh keys out u
   | CTeq t1 t2 p tr => teq_verdict t1 t2 p tr
   | CLnt a b o => lnt_verdict a b o
+  | CParse text parsed => tag (parse_agrees text parsed) 10
+  | CIov names proper i out =>
+      let ss := map snd out in
+      tag (list_eqb (fun a b => Nat.eqb (fst a) (fst b) && list_eqb (cmp_eqb str_cmp) (snd a) (snd b))
+             (removal_candidates (if proper then non_empty_proper_subsets names else non_empty_subsets names) i) out) 6 ++
+      tag (forallb (fun s => nonempty s && subseqb str_cmp s names && (negb proper || Nat.ltb (length s) (length names))) ss
+           && o_list_nodup str_cmp ss
+           && Nat.eqb (length ss + (if proper && negb (is_nil names) then 2 else 1)) (2 ^ length names)) 61 ++
+      tag (list_eqb Nat.eqb (map fst out) (seq i (length out))) 41
   | CAllowed keys qs => check_allowed keys qs
   | CStep keys out => check_step keys out
   | CRed keys out colls => check_red keys out colls
